@@ -22,7 +22,8 @@ LEVEL = "proof"
 LEVEL_TEXT = ("Theorems in Props/C09.v: C09_decode (both quote styles, every body the lexer lets through: the parser model's decoding, including the two str.replace passes and the index arithmetic, "
               "equals the RFC value and rejects exactly the non-derivable bodies, never IndexError); C09_literal_end_to_end (from any lexer state the string states turn a body the RFC derives plus its closing quote "
               "into one token holding that body, and the parser decodes it to the RFC value); C09_lexer_rejects; surrogate-pair arithmetic for all 1024x1024 pairs. "
-              "Where the literal sits in a whole query, and the model itself, are tied to the code by differential testing in both literal positions.")
+              "C09_name_selector_in_query / C09_comparison_in_query: the literal inside whole queries - compile of $[<lit>] and of $[?@==<lit>] returns the query holding the RFC value, for every derivable body in either quote style. "
+              "The model itself is tied to the code by differential testing in both literal positions.")
 LEVEL_NOTE = "Trusted: Coq kernel; Spec/StringLit.v as a reading of the RFC; correspondence; extraction and driver."
 
 SIMPLE = ["\\b", "\\f", "\\n", "\\r", "\\t", "\\/", "\\\\"]
